@@ -6,23 +6,33 @@ import (
 	"github.com/talostrading/sonic/internal/vsys/vkernel"
 )
 
-// Mutex records its holder; locking it again from the (single) loop thread is a self-deadlock.
+// Mutex records its holder. Locking it again from the thread that holds it is a self-deadlock; a
+// thread that finds it held by another thread blocks until that one has run. Lock and Unlock are
+// preemption points of the logical-thread scheduler and carry the happens-before edges.
 type Mutex struct {
-	held bool
+	held   bool
+	holder int
 }
 
 func (m *Mutex) Lock() {
-	if m.held {
-		vkernel.K.Log.SelfDeadlock = true
-		vf.Assert("mutex: Lock by the goroutine that already holds it (self-deadlock)", false)
-		vf.Assume(false)
+	vf.SyncPoint()
+	for m.held {
+		if m.holder == vf.ThreadID() {
+			vkernel.K.Log.SelfDeadlock = true
+			vf.Assert("mutex: Lock by the goroutine that already holds it (self-deadlock)", false)
+			vf.Assume(false)
+		}
+		vf.Block("mutex")
 	}
-	m.held = true
+	m.held, m.holder = true, vf.ThreadID()
+	vf.Acquire(m)
 }
 
 func (m *Mutex) Unlock() {
 	vf.Assert("mutex: Unlock of an unlocked mutex", m.held)
+	vf.Release(m)
 	m.held = false
+	vf.SyncPoint()
 }
 
 func (m *Mutex) TryLock() bool {
